@@ -2,6 +2,8 @@ import json,sys,glob
 for f in sorted(glob.glob(sys.argv[1])):
     d=json.load(open(f)); s=d['scenario']
     print('==',f.split('/')[-1])
+    for n,e in enumerate(d.get('history') or []):
+        print('  earlier scenario %d (same process):' % n, json.dumps(e)[:600])
     for k,v in s.items():
         if k=='config': print('  config', {a:b for a,b in v.items() if b not in (None,0,False,'-','>',[])})
         else: print(' ',k,json.dumps(v)[:1500])
